@@ -396,8 +396,89 @@ fn dfs_alphabet() -> (Vec<Op>, Vec<String>) {
     (ops, paths)
 }
 
+/// tokens that are easy to confuse once compared through anything but their bytes: one random
+/// base token plus its prefix, extensions by a leading / trailing 0x00, 0x01, 0x80, 0xff, zero
+/// padding to eight bytes, the last byte flipped, the reverse
+fn token_family(r: &mut Rng) -> Vec<Vec<u8>> {
+    let l = r.usize_below(9);
+    let base = if r.bool() { r.bytes(l) } else { (0..l as u8).map(|i| i + 1).collect() };
+    let mut fam = vec![base.clone()];
+    if !base.is_empty() {
+        fam.push(base[..base.len() - 1].to_vec());
+        fam.push(base[1..].to_vec());
+        let mut f = base.clone();
+        *f.last_mut().unwrap() ^= 0x80;
+        fam.push(f);
+        let mut rev = base.clone();
+        rev.reverse();
+        fam.push(rev);
+    }
+    if base.len() < 8 {
+        for b in [0u8, 1, 0x80, 0xff] {
+            let mut lead = vec![b];
+            lead.extend_from_slice(&base);
+            fam.push(lead);
+            let mut trail = base.clone();
+            trail.push(b);
+            fam.push(trail);
+        }
+        let mut padded = base.clone();
+        padded.resize(8, 0);
+        fam.push(padded);
+        let mut padded_front = vec![0u8; 8 - base.len()];
+        padded_front.extend_from_slice(&base);
+        fam.push(padded_front);
+    }
+    fam.push(vec![]);
+    fam
+}
+
+/// For every token length 0..7 and every one-byte extension: register with one token of the pair,
+/// deregister with the other (must change nothing), notify, deregister with the right one.
+fn directed_token_pairs(rep: &mut Report, limit: u8, which: &str, is15: bool) {
+    let paths = vec!["r".to_string(), "s".to_string()];
+    for l in 0..=7usize {
+        for variant in 0..2 {
+            let t: Vec<u8> = if variant == 0 { (0..l as u8).map(|i| 0x10 + i).collect() } else { vec![0u8; l] };
+            for b in [0u8, 1, 0x80, 0xff] {
+                for front in [true, false] {
+                    let mut longer = t.clone();
+                    if front {
+                        longer.insert(0, b);
+                    } else {
+                        longer.push(b);
+                    }
+                    for (a, c) in [(t.clone(), longer.clone()), (longer.clone(), t.clone())] {
+                        let ops = vec![
+                            Op::Register { ep: 1, token: a.clone(), path: "r".into() },
+                            Op::Register { ep: 2, token: c.clone(), path: "r".into() },
+                            Op::Changed { path: "r".into(), mid: 5, con: true },
+                            Op::Deregister { ep: 1, token: c.clone(), path: "r".into() },
+                            Op::Deregister { ep: 2, token: a.clone(), path: "r".into() },
+                            Op::Changed { path: "r".into(), mid: 6, con: false },
+                            Op::Register { ep: 1, token: c.clone(), path: "r".into() },
+                            Op::Deregister { ep: 1, token: a.clone(), path: "r".into() },
+                            Op::Changed { path: "r".into(), mid: 7, con: true },
+                            Op::Deregister { ep: 1, token: c.clone(), path: "r".into() },
+                            Op::Deregister { ep: 2, token: c.clone(), path: "r".into() },
+                            Op::Changed { path: "r".into(), mid: 8, con: true },
+                        ];
+                        rep.eval();
+                        match run_history(rep, limit, &ops, &paths, is15, which) {
+                            Ok(()) => rep.count("token_pair_histories_held"),
+                            Err((sig, detail, step)) => rep.violation(&sig, format!("step {}: {}", step, detail), history_text(limit, &ops[..=step.min(ops.len() - 1)])),
+                        }
+                    }
+                }
+            }
+        }
+    }
+}
+
 fn random_history(r: &mut Rng, len: usize, paths: &[String]) -> Vec<Op> {
-    let toks: [&[u8]; 4] = [&[], &[1], &[2, 2], &[1, 2, 3, 4, 5, 6, 7, 8]];
+    let fam = token_family(r);
+    let fixed: [&[u8]; 4] = [&[], &[1], &[2, 2], &[1, 2, 3, 4, 5, 6, 7, 8]];
+    let toks: Vec<&[u8]> = if r.bool() { fixed.to_vec() } else { (0..4).map(|_| r.pick(&fam).as_slice()).collect() };
     let mut ops = Vec::with_capacity(len);
     let neps = *r.pick(&[1u64, 2, 3, 6]);
     // message ids that collide under truncation / hashing (same low bits, same high byte, ...)
@@ -481,6 +562,11 @@ pub fn run_observe(ctx: &mut Ctx, which: &str) {
         if let Err((sig, detail, step)) = run_history(rep, limit, &hist, &paths, is15, which) {
             rep.violation(&sig, format!("step {}: {}", step, detail), history_text(limit, &hist));
         }
+    }
+    // ---- confusable token pairs (prefix / extension by one byte, every length)
+    if shard == 0 || level == 0 {
+        directed_token_pairs(rep, if is15 { 3 } else { 1 }, which, is15);
+        rep.floor("token_pair_histories_held", 1);
     }
     // ---- random long histories over larger alphabets
     let big_paths: Vec<String> = ["a", "b/c", "x", "", "a/b", "/x", "a/", "/", "A"].iter().map(|s| s.to_string()).collect();
